@@ -7,6 +7,7 @@ import (
 	"math/rand/v2"
 	"os"
 	"runtime"
+	"runtime/debug"
 	"sort"
 	"sync"
 	"sync/atomic"
@@ -176,3 +177,13 @@ func scenSig(sc *scen.Scenario) string {
 	b, _ := json.Marshal(sc)
 	return string(b)
 }
+
+func runtimeStack(b []byte) int { return runtime.Stack(b, true) }
+
+// setGCOff switches the collector off and returns the function that restores it.
+func setGCOff() func() {
+	old := debug.SetGCPercent(-1)
+	return func() { debug.SetGCPercent(old) }
+}
+
+func runGC() { runtime.GC() }
